@@ -519,7 +519,13 @@ def make_machine(rec):
             if self.dead or (cls._t0 is not None and time.monotonic() - cls._t0 > cls._budget):
                 return
             try:
-                self.sim.apply(op)
+                from vlib.core import cpu_guard, CaseHang
+
+                try:
+                    with cpu_guard(30.0):
+                        self.sim.apply(op)
+                except CaseHang as h:
+                    raise PropertyViolation("hang", f"operation {op[0]} did not finish: {h}", extra={"bucket": "hang"})
             except PropertyViolation as v:
                 self.dead = True
                 v.case = list(self.sim.history)
